@@ -252,6 +252,12 @@ func ivalHandler(args []string) (string, []string) {
 			return "err", ps.out()
 		}
 		checkIntersection(&ps, args[1], orig, lists, r)
+		if len(orig) == 2 {
+			// the two-operand METHOD is the same function
+			if rm, err := cloneIvs(orig[0]).Intersection(cloneIvs(orig[1])); err != nil || !equalIvs(rm, r) {
+				ps.add("C04", "operands=%s IntersectionOfSomeIntervalLists gives %s but the method A.Intersection(B) gives %s err=%v", args[1], showIvs(r), showIvs(rm), err)
+			}
+		}
 		after := make([]string, len(lists))
 		for i, l := range lists {
 			after[i] = showIvs(l)
